@@ -9,7 +9,7 @@ E2 = "E2 input-shape enumerator"
 CLAIMS = {
  "C19": dict(engine=E1, design="§4.C19",
    technique="explicit-state BFS over call histories of the real UnionFind in lockstep with a partition model (model checking of the implementation)",
-   text="Every history of new_set/union/try_union/find_mut/try_find_mut/clone/capacity calls over a bounded element universe (<=5 elements quick, <=7 thorough; u8 at 254..256 elements; all four index widths) is executed on the real UnionFind; after every call the complete query battery (find/try_find/equiv/try_equiv over all in- and out-of-range arguments, into_labeling) is compared with a plain partition model. States are the full concrete parent/rank vectors, so every path-compression shape is covered. BFS reaches the fixpoint of the bounded universe (exhaustive:true in the evidence).",
+   text="Every history of new_set/union/try_union/find_mut/try_find_mut/clone/capacity calls over a bounded element universe (<=5 elements quick, <=7 thorough; u8 at 254..256 elements; all four index widths) is executed on the real UnionFind; after every call the complete query battery (find/try_find/equiv/try_equiv over all in- and out-of-range arguments, into_labeling) is compared with a plain partition model; root-to-root-union universes with 8 (thorough 9) elements reach the deepest trees the ranks allow, and there find_mut / try_find_mut are probed on fresh clones of every state. States are the full concrete parent/rank vectors, so every path-compression shape is covered. BFS reaches the fixpoint of the bounded universe (exhaustive:true in the evidence).",
    note="Bounded element universe; u32/usize capacity limits not reachable by execution; reference model RefPartition (label vector) is trusted."),
 }
 
@@ -18,15 +18,15 @@ def e2claim(design, what, note="Bounded input sizes (see evidence families[*].bo
       technique="exhaustive enumeration of all labelled input graphs within stated bounds, real algorithm run on every encoding, compared with a brute-force oracle (bounded-exhaustive model checking of the implementation over its input space)",
       text=what, note=note)
 CLAIMS.update({
- "C08": e2claim("§4.C08", "Every labelled directed/undirected graph with self-loops on <=4 nodes and every ordered edge list (multigraph) on 3 nodes, every start node, on seven graph encodings and through Reversed/NodeFiltered(all node subsets)/EdgeFiltered(all edge subsets)/UndirectedAdaptor: Dfs/Bfs/DfsPostOrder/Topo sequences checked against reachability, hop levels, post-order and cycle-downstream sets; move_to/reset/empty/with_initials included; depth_first_search event streams compared with a reference DFS under every control script with one (quick) or two (thorough) deviations from all-Continue."),
- "C09": e2claim("§4.C09", "Every labelled graph of the families (all digraphs/undirected graphs with loops on <=4 nodes, ordered multigraph edge lists on 3 nodes; thorough adds 5 nodes) on up to 11 encodings: kosaraju_scc, tarjan_scc, TarjanScc::run (fresh and reused), node_component_index, connected_components, has_path_connecting (fresh/reused/dirty DfsSpace, all pairs), is_cyclic_directed/undirected, is_bipartite_undirected (all starts), toposort (with/without space), condensation (both flags) compared with closure-based oracles."),
- "C10": e2claim("§4.C10", "Every weighted graph of the families (ordered weighted edge lists on 3 nodes with loops/parallels/zero costs, weighted simple graphs on 3-4 nodes; u32 and f64 costs) x every source x every goal and goal set x k in 1..=4 on seven encodings: dijkstra (with/without goal), astar (h=0, exact, exact/2, and every admissible h:V->{0,1,2} incl. inconsistent ones), k_shortest_path compared with exact all-pairs distances and k-smallest-walk-cost fixpoints."),
+ "C08": e2claim("§4.C08", "Every labelled directed/undirected graph with self-loops on <=4 nodes and every ordered edge list (multigraph) on 3 nodes, every start node, on seven graph encodings and through Reversed/NodeFiltered(all node subsets)/EdgeFiltered(all edge subsets)/UndirectedAdaptor: Dfs/Bfs/DfsPostOrder/Topo sequences checked against reachability, hop levels, post-order and cycle-downstream sets; move_to/reset/empty/with_initials included; depth_first_search event streams compared with a reference DFS under every control script with one (quick) or two (thorough) deviations from all-Continue, each script also with a visitor returning Result<Control, E> (Ok(c) and Err for Break); Walker::iter of all four walkers."),
+ "C09": e2claim("§4.C09", "Every labelled graph of the families (all digraphs/undirected graphs with loops on <=4 nodes, ordered multigraph edge lists on 3 nodes; thorough adds 5 nodes) on up to 11 encodings: kosaraju_scc, tarjan_scc, TarjanScc::run (fresh and reused), node_component_index, connected_components, has_path_connecting (fresh/reused/dirty DfsSpace, all pairs), is_cyclic_directed/undirected, is_bipartite_undirected (all starts), toposort (with/without space, with a never-sized DfsSpace, with a space left in mid-search on a larger graph of the same type), condensation (both flags) compared with closure-based oracles."),
+ "C10": e2claim("§4.C10", "Every weighted graph of the families (ordered weighted edge lists on 3 nodes with loops/parallels/zero costs, weighted simple graphs on 3-4 nodes; u32 and f64 costs) x every source x every goal and goal set x k in 1..=4 on seven encodings: dijkstra (with/without goal), astar (h=0, exact, exact/2, and every admissible h:V->{0,1,2} incl. inconsistent ones; plus a 5-node two-detour network with every cost assignment x every admissible heuristic, where a node must be re-opened twice), k_shortest_path compared with exact all-pairs distances and k-smallest-walk-cost fixpoints."),
  "C11": e2claim("§4.C11", "Every weighted graph with negative, zero and positive costs of the families x every source on up to nine encodings (f64/i32, thorough i64/f32): bellman_ford, spfa, floyd_warshall(_path), find_negative_cycle compared with exact distances and exact negative-cycle reachability; predecessor trees and prev matrices must spell shortest paths; returned negative cycles must be closed negative walks."),
- "C12": e2claim("§4.C12", "Every weighted undirected multigraph (loops, parallels, repeated weights) of the families, stored undirected and directed in up to eight encodings: the min_spanning_tree / min_spanning_tree_prim element streams are checked for node order, edge membership, acyclicity, |V|-c edges and minimum total weight (brute force over all edge subsets)."),
+ "C12": e2claim("§4.C12", "Every weighted undirected multigraph (loops, parallels, repeated weights) of the families, stored undirected and directed in up to eight encodings: the min_spanning_tree / min_spanning_tree_prim element streams are checked for node order, edge membership, acyclicity, |V|-c edges and minimum total weight (brute force over all edge subsets); Graph::from_elements of the stream must have exactly the stream's nodes and edges."),
  "C13": e2claim("§4.C13", "Every ordered pair of labelled simple graphs (with self-loops) of the families - so every relabeling of either argument is enumerated - on Graph and GraphMap encodings: is_isomorphic, is_isomorphic_subgraph, the _matching variants over every {0,1} node/edge weighting and seven predicate pairs, and subgraph_isomorphisms_iter (exact multiset of embeddings) compared with brute force over all injections."),
- "C15": e2claim("§4.C15", "Matching: every labelled undirected (multi)graph on <=5 nodes (+6 loop-free) on nine encodings incl. StableGraph with vacancies: validity of greedy/maximum matching and maximum cardinality vs brute force. Flow: every capacitated directed multigraph of the families x every (s,t): capacity, conservation, value = min cut (all cuts enumerated), on Graph and StableGraph with node/edge vacancies, u8/u32/f64.", "Bounded sizes; maximality only asserted on undirected storage (DESIGN note N3); oracles trusted."),
+ "C15": e2claim("§4.C15", "Matching: every labelled undirected (multi)graph on <=5 nodes (+6 loop-free) on nine encodings incl. StableGraph with vacancies: validity of greedy/maximum matching and maximum cardinality vs two independent oracles (edge-subset brute force and a vertex-subset dynamic programme; thorough: 7 nodes). Flow: every arc subset of a layered 8-node unit network (augmenting paths must cancel flow) and every capacitated directed multigraph of the families x every (s,t): capacity, conservation, value = min cut (all cuts enumerated), on Graph and StableGraph with node/edge vacancies, u8/u32/f64.", "Bounded sizes; maximality only asserted on undirected storage (DESIGN note N3); oracles trusted."),
  "C16": e2claim("§4.C16", "Dominators: every labelled digraph with loops on <=4 nodes (+ordered lists; thorough 5 nodes) x every root on nine encodings incl. Reversed: dominators/strict_dominators/immediate_dominator/immediately_dominated_by compared with the remove-a-node definition. Articulation points: every labelled undirected (multi)graph with loops on <=5 nodes (thorough 6) on nine encodings vs the component-count definition."),
- "C20": e2claim("§4.C20", "maximal_cliques and dsatur_coloring on every undirected simple graph on <=5 (thorough 6) nodes in nine encodings; greedy_feedback_arc_set on every directed multigraph list (n<=4); transitive reduction/closure on every DAG on <=4 (thorough 5) nodes with every valid toposort; all_simple_paths for all (a,b,min,max) on every digraph on <=4 nodes; steiner_tree on every weighted graph on <=5 nodes x every connected terminal set (2-approximation vs brute-force optimum); page_rank invariants and equivariance under every node permutation.", "Bounded sizes; steiner_tree iterates hashbrown maps whose seed the harness does not control (the property must hold for every seed; each run covers one); known findings D12, D23 listed in known_findings.json."),
+ "C20": e2claim("§4.C20", "maximal_cliques and dsatur_coloring on every undirected simple graph on <=5 (thorough 6) nodes in nine encodings; greedy_feedback_arc_set on every directed multigraph list (n<=4); transitive reduction/closure on every DAG on <=4 (thorough 5) nodes with every valid toposort; all_simple_paths for all (a,b,min,max) on every digraph on <=4 nodes; steiner_tree on every weighted graph on <=5 nodes and on a 9-node two-route network (every weight assignment; exercises the repeated pruning of non-terminal leaves) x every connected terminal set (2-approximation vs brute-force optimum); page_rank invariants and equivariance under every node permutation.", "Bounded sizes; steiner_tree iterates hashbrown maps whose seed the harness does not control (the property must hold for every seed; each run covers one); known findings D12, D23 listed in known_findings.json."),
 })
 
 
@@ -34,17 +34,17 @@ E1c = "explicit-state BFS over operation histories of the real data structure in
 def e1claim(design, what, note):
     return dict(engine=E1, design=design, technique=E1c, text=what, note=note)
 CLAIMS.update({
- "C01": e1claim("§4.C01", "Every history of the full public mutator alphabet of Graph (add/try_add/update/remove of nodes and edges, weight writes, IndexMut, index_twice_mut, node/edge_weights_mut, reverse, clear(_edges), retain_*, map, filter_map, extend_with_edges, from_edges, into_edge_type, clone(_from), StableGraph round trip, Build::*, capacity ops) over in-range, out-of-range and end() indices in a bounded universe (<=3 nodes / <=2-3 edges, both edge types inside one exploration, u8/u16/u32/usize) is executed on the real Graph; after every call the return value / documented panic, the exact concrete structure (all four link lists) and the complete query battery are compared with a plain multigraph model. u8 capacity: histories from 253..255-node and 253..255-edge fills.", "Bounded universe; where the documentation leaves renumbering open (remove_node edge order, retain_*) every documented possibility is accepted and the implementation's choice adopted; model RefMulti trusted."),
- "C02": e1claim("§4.C02", "Every history of the StableGraph alphabet incl. every failing try_* form (absent, vacant, out-of-range endpoints, each with and without vacant slots) in a bounded universe: indices are stable until removal, add_* may return any non-live index, counts/bounds/iterators agree, failing calls leave the complete observation (abstract structure plus the index sequences a clone hands out next, i.e. both free lists incl. back links) unchanged, no valid call panics - in a build with petgraph's debug assertions and again in a build without them. u8 capacity from near-capacity fills with and without vacancies.", "Bounded universe; hidden free-list state is recovered through probes on clones; model RefMulti trusted."),
- "C03": e1claim("§4.C03", "Every history of GraphMap operations over 3-4 keys (two key types incl. one with reversed Ord; RandomState, Fx and an all-colliding hasher; both edge types) to the fixpoint; full query battery for every key pair incl. a never-inserted key; return values of add_edge/remove_*; to_index/from_index bijection; into_graph/from_graph.", "Bounded key universe; RandomState seeds not controlled (IndexMap order does not depend on them)."),
- "C04": e1claim("§4.C04", "Every history of MatrixGraph operations between existing nodes (both edge types, Option and NotZero null elements, u8/u16/usize, initial capacities 0..5) to the fixpoint, key includes matrix capacity and id-reuse order recovered by probes; plus an exhaustive sweep over all capacity boundaries up to 70 nodes (4/8/16/32/64/128 steps) checking the complete edge set after every growth step.", "Operations only between existing nodes (the property's quantifier); a refused try_update_edge is a no-op (note N1); extend_with_edges only on compact id spaces (note N8)."),
- "C05": e1claim("§4.C05", "Every insertion history of Csr (directed/undirected, four index widths) and adj::List in a bounded universe with in- and out-of-range endpoints to the fixpoint (keys = Debug dump = complete structure); every input list of <=3-4 pairs for from_sorted_edges; sweep over row lengths 1..40 on both sides of the 32-neighbour binary-search cutoff in three fill orders with every target probed.", "Bounded universe."),
- "C06": e2claim("§4.C06", "Every ordered edge list on 3 nodes (and simple graphs on 4) in all six graph types, every reachable state of a bounded StableGraph universe, and for Graph/StableGraph bases every adaptor (&G, Frozen, Reversed, UndirectedAdaptor, NodeFiltered over every node subset in closure/FixedBitSet/HashSet form, EdgeFiltered over every edge subset) and depth-2 stackings: all visit traits compared with the abstract graph the view must show.", "Bounded sizes; UndirectedAdaptor lenient (note N2); GraphMap<Undirected> EdgeIndexable only on ids from edge_references (N4)."),
- "C07": e2claim("§4.C07", "Every labelled weighted (multi)graph on <=3-4 nodes - every relabeling is itself enumerated - stored in every graph type along several construction histories, index widths and vacancy patterns, plus every reachable StableGraph state of a bounded universe; every generic algorithm and walker the encoding's traits admit is run and judged by its own oracle, so unique answers agree across encodings and non-unique ones are equally valid/optimal; panics, out-of-bounds and hangs are violations.", "Bounded sizes; known finding D12 (page_rank on sparse index spaces)."),
- "C14": e1claim("§4.C14", "Every history of add_node / try_add_edge / try_update_edge / Build::add_edge / Build::update_edge / remove_edge / remove_node (present, already removed, never existing) on Acyclic<DiGraph> and Acyclic<StableDiGraph> (u8/u32/usize) from new() and from try_from_graph of every acyclic digraph on <=3 nodes, to the fixpoint; all order invariants, is_valid_edge for all pairs, accept/reject exactness with error kinds, rejected operations leave everything unchanged; try_from_graph/TryFrom on every digraph on <=3-4 nodes; repeated without debug assertions.", "Bounded universe; positions are canonicalised by rank in the state key (behaviour depends on their order only); inner graph types are decided by C01/C02."),
+ "C01": e1claim("§4.C01", "Every history of the full public mutator alphabet of Graph (add/try_add/update/remove of nodes and edges, weight writes, IndexMut, index_twice_mut, node/edge_weights_mut, reverse, clear(_edges), retain_*, map, filter_map, extend_with_edges, from_edges, into_edge_type, clone(_from), StableGraph round trip, Build::*, capacity ops) over in-range, out-of-range and end() indices in a bounded universe (<=3 nodes / <=2-3 edges, both edge types inside one exploration, u8/u16/u32/usize) is executed on the real Graph; after every call the return value / documented panic, the exact concrete structure (all four link lists) and the complete query battery are compared with a plain multigraph model; in every distinct state every iterator handed out is checked against its own next() sequence (size_hint, count, last, nth, next_back / rev, len). u8 capacity: histories from 253..255-node and 253..255-edge fills.", "Bounded universe; where the documentation leaves renumbering open (remove_node edge order, retain_*) every documented possibility is accepted and the implementation's choice adopted; model RefMulti trusted."),
+ "C02": e1claim("§4.C02", "Every history of the StableGraph alphabet incl. every failing try_* form (absent, vacant, out-of-range endpoints, each with and without vacant slots) in a bounded universe: indices are stable until removal, add_* may return any non-live index, counts/bounds/iterators agree, failing calls leave the complete observation (abstract structure plus the index sequences a clone hands out next, i.e. both free lists incl. back links) unchanged, no valid call panics; iterator protocol of every iterator in every distinct state - in a build with petgraph's debug assertions and again in a build without them. u8 capacity from near-capacity fills with and without vacancies.", "Bounded universe; hidden free-list state is recovered through probes on clones; model RefMulti trusted."),
+ "C03": e1claim("§4.C03", "Every history of GraphMap operations over 3-4 keys (two key types incl. one with reversed Ord; RandomState, Fx and an all-colliding hasher; both edge types) to the fixpoint; full query battery for every key pair incl. a never-inserted key; return values of add_edge/remove_*; to_index/from_index bijection; into_graph/from_graph; iterator protocol (size_hint, count, last, nth, next_back, len) of nodes / all_edges / all_edges_mut / neighbors* / edges* in every distinct state.", "Bounded key universe; RandomState seeds not controlled (IndexMap order does not depend on them)."),
+ "C04": e1claim("§4.C04", "Every history of MatrixGraph operations between existing nodes (both edge types, Option and NotZero null elements, u8/u16/usize, initial capacities 0..5) to the fixpoint, key includes matrix capacity and id-reuse order recovered by probes; plus an exhaustive sweep over all capacity boundaries up to 70 nodes (4/8/16/32/64/128 steps) checking the complete edge set after every growth step; get_* / Index accessors and the visit-trait routes in the battery, iterator protocol in every distinct state; u8 ids at the index limit (255 nodes, NodeIxLimit, documented add_node panic, id reuse).", "Operations only between existing nodes (the property's quantifier); a refused try_update_edge is a no-op (note N1); extend_with_edges only on compact id spaces (note N8)."),
+ "C05": e1claim("§4.C05", "Every insertion history of Csr (directed/undirected, four index widths) and adj::List in a bounded universe with in- and out-of-range endpoints to the fixpoint (keys = Debug dump = complete structure); every input list of <=3-4 pairs for from_sorted_edges; sweep over row lengths 1..40 on both sides of the 32-neighbour binary-search cutoff in three fill orders with every target probed; iterator protocol of every Csr / List iterator in every distinct state.", "Bounded universe."),
+ "C06": e2claim("§4.C06", "Every ordered edge list on 3 nodes (and simple graphs on 4) in all six graph types (MatrixGraph with one / three removed ids, GraphMap after node removals, Csr after clear_edges) and in Acyclic<Graph|StableGraph>, every reachable state of a bounded StableGraph universe, and for Graph/StableGraph bases every adaptor (&G, Frozen, Reversed, UndirectedAdaptor, NodeFiltered over every node subset in closure/FixedBitSet/HashSet form, EdgeFiltered over every edge subset) and depth-2 stackings: all visit traits (called as trait methods) compared with the abstract graph the view must show; DataMap through &G, &mut G, Reversed and NodeFiltered.", "Bounded sizes; UndirectedAdaptor lenient (note N2); GraphMap<Undirected> EdgeIndexable only on ids from edge_references (N4)."),
+ "C07": e2claim("§4.C07", "Every labelled weighted (multi)graph on <=3-4 nodes - every relabeling is itself enumerated - stored in every graph type along several construction histories, index widths and vacancy patterns, plus every reachable StableGraph state of a bounded universe and every undirected simple graph on 4-5 (thorough 6) nodes for the adjacency-matrix algorithms; every generic algorithm and walker the encoding's traits admit is run and judged by its own oracle, so unique answers agree across encodings and non-unique ones are equally valid/optimal; panics, out-of-bounds and hangs are violations.", "Bounded sizes; known finding D12 (page_rank on sparse index spaces)."),
+ "C14": e1claim("§4.C14", "Every history of add_node / try_add_edge / try_update_edge / Build::add_edge / Build::update_edge / remove_edge / remove_node (present, already removed, never existing) on Acyclic<DiGraph> and Acyclic<StableDiGraph> (u8/u32/usize) from new(), from try_from_graph of every acyclic digraph on <=3 nodes and from TryFrom of the same digraphs stored with vacancies below the live nodes, to the fixpoint; all order invariants, is_valid_edge for all pairs, accept/reject exactness with error kinds, rejected operations leave everything unchanged; try_from_graph/TryFrom on every digraph on <=3-4 nodes; repeated without debug assertions.", "Bounded universe; positions are canonicalised by rank in the state key (behaviour depends on their order only); inner graph types are decided by C01/C02."),
  "C17": dict(engine="E2 + E3 fault enumerator", design="§4.C17",
    technique="exhaustive enumeration of round-trip inputs (E2 shapes and E1-reachable states) and of every mutant of a stated mutation alphabet over seed streams (fault enumeration), each accepted result validated by the C01/C02 lockstep machines",
-   text="Round trips (JSON and bincode) of every ordered edge list on 3 nodes in Graph/StableGraph/GraphMap encodings over four weight types and four index widths, of every reachable StableGraph state of a bounded universe, and of u8 graphs at the index limit, incl. cross-type loads. Faults: every truncation, every (position x replacement) of JSON and bincode seed streams, every JSON leaf/subtree replaced by 18 adversarial values, every array element deleted/duplicated/swapped, every key removed, and a structured generator over node_holes sequences and in-range/out-of-range/hole edge endpoints; each deserialisation must return Err or a graph that passes the complete C01/C02 validation, and never panic - with and without debug assertions.",
+   text="Round trips (JSON and bincode) of every ordered edge list on 3 nodes in Graph/StableGraph/GraphMap encodings over four weight types and four index widths, of every reachable StableGraph state of a bounded universe, and of u8 graphs at the index limit (incl. streams whose live nodes plus node_holes exceed it), incl. cross-type loads. Faults: every truncation, every (position x replacement) of JSON and bincode seed streams, every JSON leaf/subtree replaced by 18 adversarial values, every array element deleted/duplicated/swapped, every key removed, and a structured generator over node_holes sequences and in-range/out-of-range/hole edge endpoints; each deserialisation must return Err or a graph that passes the complete C01/C02 validation, and never panic - with and without debug assertions.",
    note="Mutation alphabets and seed universes bounded as stated; known finding D21 (exactly Ix::max elements)."),
  "C18": e2claim("§4.C18", "graph6: every simple undirected graph on <=5 (thorough 6) nodes in five graph types / ten encodings and, for every n in 0..=70, the empty, complete, path, star, every single-edge and every single-non-edge graph: graph6_string() equals an independent encoder (cross-checked against networkx), from_graph6_string rebuilds exactly the described graph and re-encodes identically. Dot: every small (multi)graph x five graph types x all 32 Config subsets x RankDir x four formatters, and every weight string of length <=3 over an adversarial alphabet: the output is parsed by an independent DOT tokenizer/parser; statements and unescaped labels must match the graph.", "Sizes up to 258047 nodes are not reachable by execution; the 18-bit header is exercised up to 4096 nodes; reference codec/parser trusted."),
 })
